@@ -1,13 +1,20 @@
 package sqlite
 
 import (
+	"context"
+	"encoding/json"
+
 	eventbus "github.com/jilio/ebu"
 )
 
-//verif:entry property=C12 tier=both bounds="SQLite store (events + subscription offsets) through the database/sql model, AUTOINCREMENT base position p in [0,200]: every history of H steps out of {publish subscribed type, publish other type, SubscribeWithReplay (once per bus), restart}; no fault; drain restart at the end; exactly-once and log order" cover="drained" H_quick=4 H_thorough=5
+//verif:entry property=C12 tier=both bounds="SQLite store (events + subscription offsets) through the database/sql model (incl. its connection-pool limit), file-backed or :memory:, AUTOINCREMENT base position p in [0,200]: every history of H steps out of {publish subscribed type, publish other type, SubscribeWithReplay (once per bus), restart}; no fault; drain restart at the end; exactly-once and log order" cover="drained" H_quick=4 H_thorough=5
 func harnessC12SqliteHistory() {
 	H := vParam("H", 4)
-	st := mustNew("/tmp/gosx-c12-a.db")
+	path := "/tmp/gosx-c12-a.db"
+	if vBool() {
+		path = ":memory:" // the store configures in-memory databases differently (DSN, pool)
+	}
+	st := mustNew(path)
 	vsqlSetBase(st, vInt(0, 200))
 	type del struct{ n, run int }
 	var dels []del
@@ -67,4 +74,139 @@ func harnessC12SqliteHistory() {
 		vAssert(off != eventbus.OffsetOldest, "position-saved")
 	}
 	vCover("drained")
+}
+
+// c12SqlStore records what the bus managed to save, so that the oracle can
+// judge redeliveries; everything else is the real SQLiteStore.
+type c12SqlStore struct {
+	*SQLiteStore
+	saved []eventbus.Offset // successfully saved offsets of "sub", in call order
+}
+
+func (s *c12SqlStore) SaveOffset(ctx context.Context, id string, o eventbus.Offset) error {
+	err := s.SQLiteStore.SaveOffset(ctx, id, o)
+	if err == nil && id == "sub" {
+		s.saved = append(s.saved, o)
+	}
+	return err
+}
+
+//verif:entry property=C12 tier=both bounds="SQLite store through the database/sql model, AUTOINCREMENT base position p in [0,200]: every history of H steps out of {publish subscribed type, publish other type, SubscribeWithReplay (once per bus), restart} with ONE failing driver operation (exec, query, row fetch, scan or close; ordinal <= 4H) armed after the store is opened; healthy drain restart at the end" cover="fault-hit,fault-not-hit" H_quick=3 H_thorough=4
+func harnessC12SqliteOneFault() {
+	H := vParam("H", 3)
+	st := &c12SqlStore{SQLiteStore: mustNew("/tmp/gosx-c12-b.db")}
+	vsqlSetBase(st.SQLiteStore, vInt(0, 200))
+	type del struct{ n, run, saves int }
+	var dels []del
+	run := 0
+	var bus *eventbus.EventBus
+	subd := false
+	restart := func() {
+		bus = eventbus.New(eventbus.WithStore(st))
+		run++
+		subd = false
+	}
+	subscribe := func() error {
+		subd = true
+		r := run
+		return eventbus.SubscribeWithReplay(bg, bus, "sub", func(e evS) {
+			if r == run { // a bus of an earlier run is a dead process
+				dels = append(dels, del{e.N, run, len(st.saved)})
+			}
+		})
+	}
+	restart()
+	vsqlArmFault(vInt(0, 4), vInt(0, 4*H))
+	seq := 0
+	for h := 0; h < H; h++ {
+		switch vPick(4) {
+		case 0:
+			seq++
+			eventbus.Publish(bus, evS{N: seq})
+		case 1:
+			eventbus.Publish(bus, evT{N: 1})
+		case 2:
+			if !subd {
+				_ = subscribe()
+			}
+		case 3:
+			restart()
+		}
+	}
+	hit := vsqlDisarm()
+	restart()
+	vAssert(subscribe() == nil, "drain-subscribe-ok")
+	all, _, err := st.Read(bg, eventbus.OffsetOldest, 0)
+	vAssert(err == nil, "log-readable")
+	// log index of an offset, and of an evS sequence number
+	idxOf := func(o eventbus.Offset) int {
+		for i, se := range all {
+			if se.Offset == o {
+				return i
+			}
+		}
+		return -1
+	}
+	nIdx := map[int]int{}
+	for i, se := range all {
+		if se.Type == "sqlite.evS" {
+			var e evS
+			vAssert(json.Unmarshal(se.Data, &e) == nil, "log-decodes")
+			nIdx[e.N] = i
+		}
+	}
+	for n, li := range nIdx {
+		c := 0
+		for _, d := range dels {
+			if d.n == n {
+				c++
+			}
+		}
+		vAssert(c >= 1, "no-persisted-event-lost")
+		if !hit {
+			vAssert(c == 1, "exactly-once-without-faults")
+		}
+		_ = li
+	}
+	for a := 0; a < len(dels); a++ {
+		for b := a + 1; b < len(dels); b++ {
+			ia, oka := nIdx[dels[a].n]
+			ib, okb := nIdx[dels[b].n]
+			if dels[a].run == dels[b].run && oka && okb {
+				vAssert(ia < ib, "log-order-within-a-run")
+			}
+		}
+	}
+	// the saved position never moves backwards (judged by log position, not by string order)
+	for i := 1; i < len(st.saved); i++ {
+		a, b := idxOf(st.saved[i-1]), idxOf(st.saved[i])
+		if a >= 0 && b >= 0 {
+			vAssert(a <= b, "saved-offset-never-decreases")
+		}
+	}
+	// an event is delivered again only if its position had never been saved
+	for b := 0; b < len(dels); b++ {
+		ib, ok := nIdx[dels[b].n]
+		if !ok {
+			continue
+		}
+		again := false
+		for a := 0; a < b; a++ {
+			if dels[a].n == dels[b].n {
+				again = true
+			}
+		}
+		if again {
+			for _, o := range st.saved[:dels[b].saves] {
+				if io := idxOf(o); io >= 0 {
+					vAssert(io < ib, "redelivery-only-if-position-was-not-saved")
+				}
+			}
+		}
+	}
+	if hit {
+		vCover("fault-hit")
+	} else {
+		vCover("fault-not-hit")
+	}
 }
